@@ -2,6 +2,7 @@ package checks
 
 import (
 	"fmt"
+	"git.defalsify.org/vise.git/state"
 	"os"
 	"strings"
 	"unicode/utf8"
@@ -164,7 +165,8 @@ func wideApp(depth, per int) (*app.App, app.Config, []string) {
 func runC07Wide(c *vk.Ctx) {
 	// {levels, symbols loaded per level}: up to 100 levels with three symbols each; one level with 1100 symbols; 110
 	// levels with twelve each (1320 symbols visible at once)
-	for i, shape := range [][2]int{{12, 3}, {40, 3}, {100, 3}, {3, 1100}, {110, 12}} {
+	// ... and one session 150 levels deep, which the application allows by raising the exported state.MaxLevel to 192
+	for i, shape := range [][2]int{{12, 3}, {40, 3}, {100, 3}, {3, 1100}, {110, 12}, {150, 2}} {
 		depth, per := shape[0], shape[1]
 		key := fmt.Sprintf("wide/%d", depth)
 		if per != 3 {
@@ -175,7 +177,15 @@ func runC07Wide(c *vk.Ctx) {
 		}
 		a, cfg, hist := wideApp(depth, per)
 		c.Begin(key)
-		c07Compare(c, key, a, cfg, hist, false)
+		func() {
+			if depth > 120 {
+				old := state.MaxLevel
+				state.MaxLevel = 192
+				defer func() { state.MaxLevel = old }()
+				c.Count("wide_histories_with_a_raised_level_limit", 1)
+			}
+			c07Compare(c, key, a, cfg, hist, false)
+		}()
 		c.Count("wide_histories", 1)
 		c.Max("max_symbols_visible_in_a_wide_session", int64(depth*per))
 	}
